@@ -203,6 +203,7 @@ func checkC12(r *Run) {
 	r.Rule("C12.R1.atomic", "a function that takes a snapshot with CopyState() and publishes a state with SetState() holds one mutex across both calls", 4)
 	r.Rule("C12.R2.direction", "the local record is overwritten (or sent back) only across an edge that proves it is missing or less advanced than the other side's, with the received/local roles as stated", 4)
 	r.Rule("C12.R2.exchange", "ack merges the peer's records on every path; ack2 merges; the sync handler returns sync's answer; GossipOnceWith feeds the peer's ack to ack", 4)
+	r.Rule("C12.R4.restart", "cluster.Open restarts the host heartbeat on every path that found persisted state, and on every success path from there the state is flushed synchronously (goFlushStore's FlushSync of CopyState()) afterwards: the new generation is on disk before Open returns", 3)
 	r.Rule("C12.R3.order", "Heartbeat.OlderThan is the strict lexicographic (Generation, Version) order, YoungerThan its mirror; Restart bumps Generation and zeroes Version", 3)
 
 	scope := func(fn *FuncNode) bool { return fn.InPkgs("aspen/internal/cluster", "x/store") }
@@ -261,6 +262,7 @@ func checkC12(r *Run) {
 
 	checkMergeDirection(r, p)
 	checkExchange(r, p)
+	checkRestartPersisted(r, p)
 
 	// ---- R3
 	older := p.Func(versionPkg, "Heartbeat", "OlderThan")
@@ -636,4 +638,129 @@ func pow3(n int) int {
 		r *= 3
 	}
 	return r
+}
+
+// checkRestartPersisted decides C12.R4: "state from a restarted node's new generation
+// supersedes everything from its previous run" needs the bumped generation to reach
+// storage; heartbeat-only changes do not notify the store's observers, so the only write
+// is the synchronous flush that Open performs after the restart.
+func checkRestartPersisted(r *Run, p *Prog) {
+	const clusterPkg = "aspen/internal/cluster"
+	open := p.Func(clusterPkg, "", "Open")
+	flush := p.Func(clusterPkg, "Cluster", "goFlushStore")
+	if open == nil || flush == nil {
+		r.Undecide("C12.R4: cluster.Open / Cluster.goFlushStore not found")
+		return
+	}
+	c := p.CFG(open)
+	// the restart: <v>.Heartbeat = <..>.Heartbeat.Restart() followed by SetNode(ctx, <v>)
+	var restarted types.Object
+	inspectNoLit(open.Body, func(x ast.Node) bool {
+		as, ok := x.(*ast.AssignStmt)
+		if !ok || len(as.Lhs) != 1 || len(as.Rhs) != 1 {
+			return true
+		}
+		sel, ok := ast.Unparen(as.Lhs[0]).(*ast.SelectorExpr)
+		if !ok || sel.Sel.Name != "Heartbeat" {
+			return true
+		}
+		if call, ok := ast.Unparen(as.Rhs[0]).(*ast.CallExpr); ok {
+			if f := CalleeFunc(open, call); f != nil && f.Name() == "Restart" && f.Pkg() != nil && strings.HasSuffix(f.Pkg().Path(), versionPkg) {
+				restarted = objOf(open, sel.X)
+			}
+		}
+		return true
+	})
+	isSetRestarted := func(n ast.Node) bool {
+		return restarted != nil && nodeHasCall(open, n, func(o types.Object, call *ast.CallExpr) bool {
+			if f, ok := o.(*types.Func); ok && f.Name() == "SetNode" && len(call.Args) == 2 {
+				return objOf(open, call.Args[1]) == restarted
+			}
+			return false
+		})
+	}
+	isFlush := func(n ast.Node) bool {
+		return nodeHasCall(open, n, func(o types.Object, _ *ast.CallExpr) bool { return IsFunc(o, flush) })
+	}
+	setPts := c.NodesWhere(isSetRestarted)
+	r.Ob("C12.R4.restart", "cluster.Open publishes the host with Heartbeat.Restart()", p.Position(open.Pos()), len(setPts) > 0, "no SetNode of a host whose Heartbeat was assigned from Heartbeat.Restart()")
+	successExit := func(ex Exit) bool {
+		if ex.Return == nil || len(ex.Return.Results) == 0 {
+			return ex.Return == nil
+		}
+		return isNilIdent(open, ex.Return.Results[len(ex.Return.Results)-1])
+	}
+	// (a) persisted state found => restarted on every success path
+	found := c.EdgesEstablishing(func(atom ast.Expr, val bool) bool {
+		call, ok := ast.Unparen(atom).(*ast.CallExpr)
+		if !ok {
+			return false
+		}
+		f := CalleeFunc(open, call)
+		return f != nil && f.Name() == "IsZero" && !val
+	})
+	var starts []Point
+	for e := range found {
+		starts = append(starts, Point{e.B.Succs[e.Succ], -1})
+	}
+	if len(starts) == 0 {
+		r.Undecide("C12.R4: the 'persisted state found' edge (state.IsZero() false) was not found in cluster.Open")
+	} else {
+		q, reach := c.ReachAvoiding(starts, nil, isSetRestarted)
+		bad := ""
+		var path []string
+		for _, ex := range c.Exits() {
+			if successExit(ex) && reach[ex.P] {
+				bad = posOf(p, ex.Return)
+				path = q.PathTo(ex.P)
+			}
+		}
+		r.ObPath("C12.R4.restart", "cluster.Open restarts the heartbeat whenever persisted state was loaded", p.Position(open.Pos()), bad == "", "a success return at "+bad+" is reachable from the 'state found' edge without the restart", path)
+	}
+	// (b) restart => flushed afterwards on every success path
+	if len(setPts) > 0 {
+		q, reach := c.ReachAvoiding(setPts, nil, isFlush)
+		bad := ""
+		var path []string
+		for _, ex := range c.Exits() {
+			if successExit(ex) && reach[ex.P] {
+				bad = posOf(p, ex.Return)
+				path = q.PathTo(ex.P)
+			}
+		}
+		r.ObPath("C12.R4.restart", "cluster.Open flushes the state after the heartbeat restart", p.Position(open.Pos()), bad == "", "a success return at "+bad+" is reachable from the restart without a later goFlushStore: the new generation is not persisted (heartbeat-only changes do not notify the flush observer)", path)
+	}
+	// (c) goFlushStore flushes synchronously when storage is configured
+	fc := p.CFG(flush)
+	isSync := func(n ast.Node) bool {
+		return nodeHasCall(flush, n, func(o types.Object, call *ast.CallExpr) bool {
+			f, ok := o.(*types.Func)
+			if !ok || f.Name() != "FlushSync" || len(call.Args) != 2 {
+				return false
+			}
+			inner, ok := ast.Unparen(call.Args[1]).(*ast.CallExpr)
+			if !ok {
+				return false
+			}
+			g := CalleeFunc(flush, inner)
+			return g != nil && g.Name() == "CopyState"
+		})
+	}
+	noStorage := fc.EdgesEstablishing(func(atom ast.Expr, val bool) bool {
+		be, ok := ast.Unparen(atom).(*ast.BinaryExpr)
+		if !ok || !strings.HasSuffix(types.ExprString(be.X), "Storage") || !isNilIdent(flush, be.Y) {
+			return false
+		}
+		return (be.Op == token.NEQ && !val) || (be.Op == token.EQL && val)
+	})
+	q, reach := fc.ReachAvoiding([]Point{fc.Entry()}, noStorage, isSync)
+	bad := ""
+	var path []string
+	for _, ex := range fc.Exits() {
+		if reach[ex.P] {
+			bad = p.Position(flush.Pos())
+			path = q.PathTo(ex.P)
+		}
+	}
+	r.ObPath("C12.R4.restart", "Cluster.goFlushStore flushes CopyState() synchronously when storage is configured", p.Position(flush.Pos()), bad == "" && len(noStorage) > 0, "goFlushStore can return with storage configured without a synchronous FlushSync(ctx, c.CopyState())", path)
 }
